@@ -1166,7 +1166,6 @@ func (a *Agent) SocksClientClose(SocketID int32) bool {
 
 				/* close our connection */
 				a.SocksCli[i].Conn.Close()
-				a.SocksCli[i].Conn = nil
 
 			}
 
